@@ -263,6 +263,8 @@ struct E1 : Engine {
 		J hs = J::arr(); int nh = r.below(7); if(r.below(6) == 0) nh = 20 + r.below(120);   // many headers: the environment table grows through several sizes
 		for(int i=0;i<nh;i++){ J h = J::arr(); static const char *names[] = {"X-Custom","Accept","User-Agent","x-lower-case","X-Mixed-Case-Header","Accept-Language","Referer","X-A"}; std::string nm = names[r.below(8)]; nm += std::to_string(i); h.push(nm);
 			std::string v = rnd_token(r,0,nh > 20 ? 6 : 20); if(r.below(3)==0 && nh <= 20) v += (v.empty() ? "x " : " ") + rnd_token(r,1,6) + "; q=0." + std::to_string(r.below(10)) + ", \"quoted \\\" str\" (comment)"; h.push(v); hs.push(h); }
+		// long values (around and above half a string-pool page = 1024 bytes, and above a whole page) get pages of their own in the environment's pool
+		if(r.below(5) == 0){ int nl = 1 + r.below(2); for(int i=0;i<nl;i++){ unsigned x = r.below(3); int len = x == 0 ? 1018 + (int)r.below(14) : x == 1 ? 1025 + (int)r.below(1023) : 2048 + (int)r.below(4000); J h = J::arr(); h.push("X-Long" + std::to_string(i)); h.push(rnd_token(r,len,len)); if(r.below(2)) hs.a.insert(hs.a.begin(),h); else hs.push(h); } }
 		q["headers"] = hs;
 		J cs = J::arr(); int nc = r.below(4); for(int i=0;i<nc;i++){ J c = J::arr(); c.push(rnd_token(r,1,6) + std::to_string(i)); c.push(rnd_token(r,0,12)); c.push((int)(r.below(3)==0)); cs.push(c); } q["cookies"] = cs;
 		if((m == "POST" || m == "PUT") && (prop == "C12" ? r.below(10) < 8 : r.below(10) == 0)){
